@@ -3,13 +3,13 @@ EXTENDS Integers, Sequences, FiniteSets, TLC, TLCExt, Json, CSV, IOUtils, Sequen
 CONSTANTS MaxTerms, Emit
 K == INSTANCE Calculus
 
-Vars == <<"x", "y", "z", "w">>
-WrtVars == <<"x", "y", "z", "w", "v">>      \* "v" occurs in no term
+Vars == <<"x1", "yy", "z", "w">>        \* names of different lengths: a variable is matched as a whole name
+WrtVars == <<"x1", "yy", "z", "w", "v0">>      \* "v0" occurs in no term
 \* candidate terms: non-empty subsets of Vars in the order of Vars, optionally scaled by the literal 2
 SubsetTerm(S, scaled) == (IF scaled THEN <<K!LitFac("2", TRUE, 2)>> ELSE <<>>) \o
                          LET vs == SelectSeq(Vars, LAMBDA v : v \in S) IN [i \in DOMAIN vs |-> K!Fac(vs[i], "lookup")]
-TermPool == {SubsetTerm(S, sc) : S \in (SUBSET {"x", "y", "z", "w"}) \ {{}}, sc \in BOOLEAN}
-Rows == << [x |-> 2, y |-> 3, z |-> -1, w |-> 5, v |-> 7], [x |-> 0, y |-> -2, z |-> 4, w |-> 1, v |-> 1], [x |-> 3, y |-> 3, z |-> 2, w |-> -3, v |-> 0] >>
+TermPool == {SubsetTerm(S, sc) : S \in (SUBSET {"x1", "yy", "z", "w"}) \ {{}}, sc \in BOOLEAN}
+Rows == << [x1 |-> 2, yy |-> 3, z |-> -1, w |-> 5, v0 |-> 7], [x1 |-> 0, yy |-> -2, z |-> 4, w |-> 1, v0 |-> 1], [x1 |-> 3, yy |-> 3, z |-> 2, w |-> -3, v0 |-> 0] >>
 
 VARIABLES terms, wrt, icpt
 vars == <<terms, wrt, icpt>>
